@@ -62,7 +62,8 @@ BOUNDS = {
              "linear objects (rectangular meshes 3x3..4x4, sub-size 1/2/4, three concrete source-plane distortions, with and without regularization; "
              "Delaunay with 6 vertices; function lists with 1-2 positive columns) in 17 ordered lists, masks with 2..9 unmasked pixels (all masks of a "
              "2x2 window once); symbolic: data (reconstruction through the exact linear solve) | all noise values | data and noise | 3 kernel entries; "
-             "mapped_reconstructed_data for a fully symbolic reconstruction vector.",
+             "mapped_reconstructed_data for a fully symbolic reconstruction vector. Every L3 case reads two inversion objects per formalism in "
+             "opposite orders (matrices -> curvature_reg_matrix / reconstruction / log-det terms -> matrices again; and history first).",
     "thorough": "same plus: all 511 masks of a 3x3 window (L1, data symbolic), all 63 masks of a 2x3 window at L3, every order of two 3-object lists "
                 "on ring8/block9, T6 mask with a 3x5 kernel, more symbolic kernel-entry subsets (4 per pattern), 7x7 mirrored matrices, 5x5 kernel tables.",
 }
@@ -87,6 +88,8 @@ STUBS = [
     "curvature_matrix_mirrored_from is executed by the merge interpreter (if-conversion of its source) whenever its argument is symbolic",
     "function lists: the repository's own MockLinearObjFuncList with a concrete positive mapping matrix",
     "conf general.inversion.check_reconstruction = False during the runs",
+    "np.linalg.cholesky and scipy csc_matrix (log-det terms, evaluated only for their effect on cached matrices) receive the float64 form of "
+    "all-concrete object arrays",
 ]
 ASSUMPTIONS = [
     "noise values strictly positive; kernel footprint of every unmasked pixel inside the frame; odd kernel shapes",
